@@ -753,15 +753,8 @@ func (r *Reconciler) reconcileApply(ctx context.Context, proposal *configapi.Pro
 					failureType = configapi.Failure_INTERNAL
 				}
 
-				// Update the Configuration's applied index to indicate this Proposal was applied even though it failed.
-				log.Infof("Updating applied index for Configuration '%s' to %d in term %d", config.ID, proposal.TransactionIndex, config.Status.Mastership.Term)
-				config.Status.Applied.Index = proposal.TransactionIndex
-				if err := r.configurations.UpdateStatus(ctx, config); err != nil {
-					log.Warnf("Failed reconciling Transaction %d Proposal to target '%s'", proposal.TransactionIndex, proposal.TargetID, err)
-					return controller.Result{}, err
-				}
-
-				// Add the failure to the proposal's apply phase state.
+				// Record the failure in the proposal's apply phase state first: once the Configuration's applied
+				// index has moved past the Proposal, a retry of this step cannot tell a refusal from a success.
 				log.Warnf("Failed applying Proposal '%s'", proposal.ID, err)
 				proposal.Status.Phases.Apply.State = configapi.ProposalApplyPhase_FAILED
 				proposal.Status.Phases.Apply.Failure = &configapi.Failure{
@@ -770,10 +763,12 @@ func (r *Reconciler) reconcileApply(ctx context.Context, proposal *configapi.Pro
 				}
 				proposal.Status.Phases.Apply.Term = config.Status.Mastership.Term
 				proposal.Status.Phases.Apply.End = getCurrentTimestamp()
-				if err := r.updateProposalStatus(ctx, proposal); err != nil {
+				if err := r.proposals.UpdateStatus(ctx, proposal); err != nil {
 					return controller.Result{}, err
 				}
-				return controller.Result{}, nil
+
+				// Update the Configuration's applied index to indicate this Proposal was applied even though it failed.
+				return r.skipFailedApply(ctx, proposal, config)
 			}
 		}
 		log.Debugf("Received SetResponse %+v", setResponse)
@@ -809,9 +804,33 @@ func (r *Reconciler) reconcileApply(ctx context.Context, proposal *configapi.Pro
 			}, nil
 		}
 		return controller.Result{}, nil
+	case configapi.ProposalApplyPhase_FAILED:
+		// The update of the Configuration's applied index may have been interrupted after the failure was recorded.
+		configID := configuration.NewID(proposal.TargetID, proposal.TargetType, proposal.TargetVersion)
+		config, err := r.configurations.Get(ctx, configID)
+		if err != nil {
+			if !errors.IsNotFound(err) {
+				return controller.Result{}, err
+			}
+			return controller.Result{}, nil
+		}
+		return r.skipFailedApply(ctx, proposal, config)
 	default:
 		return controller.Result{}, nil
 	}
+}
+
+// skipFailedApply moves the Configuration's applied index past a Proposal whose apply failed, if that has not been done yet
+func (r *Reconciler) skipFailedApply(ctx context.Context, proposal *configapi.Proposal, config *configapi.Configuration) (controller.Result, error) {
+	if config.Status.Applied.Index < proposal.TransactionIndex && config.Status.Applied.Index == proposal.Status.PrevIndex {
+		log.Infof("Updating applied index for Configuration '%s' to %d in term %d", config.ID, proposal.TransactionIndex, config.Status.Mastership.Term)
+		config.Status.Applied.Index = proposal.TransactionIndex
+		if err := r.configurations.UpdateStatus(ctx, config); err != nil {
+			log.Warnf("Failed reconciling Transaction %d Proposal to target '%s'", proposal.TransactionIndex, proposal.TargetID, err)
+			return controller.Result{}, err
+		}
+	}
+	return requeueNext(proposal), nil
 }
 
 func (r *Reconciler) updateProposalStatus(ctx context.Context, proposal *configapi.Proposal) error {
